@@ -264,7 +264,7 @@ def _run_opt(task):
     import sys
     from vlib.runner import REPO
     res = TaskResult()
-    for flag in ("-O", "-OO", "-Werror"):
+    for flag in ("-O", "-OO", "-Werror", "-bb", "-Xdev"):
         r = subprocess.run([sys.executable, "-B", flag, "-c", _OPT_SUB, REPO, str(task["seed"])], capture_output=True, text=True)
         if r.returncode != 0:
             raise HarnessError(f"python {flag} helper failed: {r.stderr[-800:]}")
